@@ -173,9 +173,11 @@ def rust_pat(p):
     if k == "paren": return f"({rust_pat(p[1])})"
     if k == "ref": return "&" + rust_pat(p[1])
     if k == "path": return p[1] + p[2]
-    if k == "ts": return f"{p[1]}({', '.join(rust_pat(q) for q in p[2])})"
+    # (lists of two or more elements are written with a TRAILING comma, rustfmt style: the pattern's name in messages has none)
+    if k == "ts": return f"{p[1]}({', '.join(rust_pat(q) for q in p[2])}{',' if len(p[2]) >= 2 else ''})"
     if k == "slice":
-        return "[" + ", ".join([rust_pat(q) for q in p[1]] + ([".."] if p[2] else []) + [rust_pat(q) for q in p[3]]) + "]"
+        items = [rust_pat(q) for q in p[1]] + ([".."] if p[2] else []) + [rust_pat(q) for q in p[3]]
+        return "[" + ", ".join(items) + ("," if len(items) >= 2 and len(items) % 2 == 0 else "") + "]"
     if k == "cmp": return f"{'ne' if p[1] else 'eq'}!(&{p[2]})"
     raise ValueError(k)
 
